@@ -545,7 +545,82 @@ func c04Decoded(r *Run) {
 		rc, err = r.DecodeReusing(kind, pw.B, w.B)
 		r.Fired("dest.reuse.ok")
 	} else {
+		if t.Bool(1, 4, "c04.dec.twin") {
+			// the same bytes were received once before, and whoever holds that
+			// first message edited its parsed protected header afterwards (a
+			// relay preparing its own re-signing): the second decoding answers
+			// from ITS bytes, not from a value the first one still shares
+			if first, e1 := r.Decode(kind, w.B); e1 == nil {
+				var fp cose.ProtectedHeader
+				if first.MS != nil {
+					if len(first.MS.Signatures) > 0 && first.MS.Signatures[0] != nil {
+						fp = first.MS.Signatures[0].Headers.Protected
+					}
+				} else {
+					fp = first.M1.Headers.Protected
+				}
+				if fp != nil {
+					other := []int64{-7, -8, -35, -36, -37, -38, -39}[t.Choose(7, "c04.dec.twin.alg")]
+					switch t.Choose(3, "c04.dec.twin.edit") {
+					case 0:
+						fp[cose.HeaderLabelAlgorithm] = cose.Algorithm(other)
+					case 1:
+						for k := range fp {
+							if v, ok := asInt64(k); ok && v == refcose.LAlg {
+								delete(fp, k)
+							}
+						}
+					default:
+						fp[cose.HeaderLabelAlgorithm] = cose.Algorithm(key.Alg)
+					}
+					r.Fired("history.same-bytes-decoded-before-and-first-copy-edited")
+				}
+			}
+		}
 		rc, err = r.Decode(kind, w.B)
+		if err == nil && t.Bool(1, 4, "c04.dec.reparse") {
+			// the application parses the raw buckets again into a Headers (or a
+			// ProtectedHeader) value that was used for an earlier message naming
+			// the verifier's algorithm, and puts the result in place of the
+			// decoded headers: what is consulted is still what THESE bytes say
+			hp := &rc.M1
+			var cur *cose.Headers
+			if rc.MS != nil {
+				if len(rc.MS.Signatures) > 0 && rc.MS.Signatures[0] != nil {
+					cur = &rc.MS.Signatures[0].Headers
+				}
+			} else {
+				cur = &(*hp).Headers
+			}
+			if cur != nil && len(cur.RawProtected) > 0 {
+				earlierProt := refcbor.Encode(refcbor.Bstr(refcbor.Encode(refcbor.Map(refcbor.Int(refcose.LAlg), refcbor.Int(key.Alg), refcbor.Int(refcose.LKid), refcbor.Bstr([]byte("earlier"))))))
+				var e2 error
+				if t.Bool(1, 2, "c04.dec.reparse.how") {
+					h := cose.Headers{RawProtected: earlierProt, RawUnprotected: []byte{0xa0}}
+					r.Lib(func() {
+						if e2 = h.UnmarshalFromRaw(); e2 == nil {
+							h.RawProtected, h.RawUnprotected = cur.RawProtected, cur.RawUnprotected
+							e2 = h.UnmarshalFromRaw()
+						}
+					})
+					if e2 == nil {
+						*cur = h
+						r.Fired("history.headers-value-reparsed-from-raw")
+					}
+				} else {
+					var ph cose.ProtectedHeader
+					r.Lib(func() {
+						if e2 = ph.UnmarshalCBOR(earlierProt); e2 == nil {
+							e2 = ph.UnmarshalCBOR(cur.RawProtected)
+						}
+					})
+					if e2 == nil {
+						cur.Protected = ph
+						r.Fired("history.protected-header-value-reparsed")
+					}
+				}
+			}
+		}
 	}
 	if err != nil {
 		// a text alg is a conforming header; refusing the message is C07's business
